@@ -250,8 +250,8 @@ pub fn socket_jobs(tier: Tier) -> Vec<zvcore::explore::Job> {
             Params { ty, peers: 2, msgs: 3, truncated_peer: true, split: false, policy: 0 },
             Params { ty, peers: 1, msgs: 3, truncated_peer: false, split: true, policy: 0 },
         ];
+        variants.push(Params { ty, peers: 3, msgs: 2, truncated_peer: true, split: true, policy: 0 });
         if thorough {
-            variants.push(Params { ty, peers: 3, msgs: 2, truncated_peer: true, split: true, policy: 0 });
             variants.push(Params { ty, peers: 3, msgs: 3, truncated_peer: false, split: false, policy: 0 });
         }
         let variants: Vec<Params> = variants
@@ -264,7 +264,7 @@ pub fn socket_jobs(tier: Tier) -> Vec<zvcore::explore::Job> {
                 format!("C05/socket/{}/{}x{}{}{}/policy{}", ty.name(), pr.peers, pr.msgs, if pr.truncated_peer { "/trunc" } else { "" }, if pr.split { "/split" } else { "" }, pr.policy),
                 params_json(&pr),
                 tier.pick(2, 3),
-                tier.pick(60_000, 1_500_000),
+                tier.pick(200_000, 3_000_000),
                 move || scenario(&pr2),
             ));
         }
